@@ -235,7 +235,8 @@ def run_body(view, bs):
     # that does not contain it once examination has begun
     import flow
     k_fs, k_ob = flow.acc_keep(view, bs, "C06.KEEP")
-    return fs + k_fs, ob + k_ob, kind
+    f_fs, f_ob = flow.fold_keep(view.b.crate, view, "C06.KEEP")
+    return fs + k_fs + f_fs, ob + k_ob + f_ob, kind
 
 
 # ------------------------------------------------------------------ sequences
